@@ -70,8 +70,8 @@ Section AnyImplementer.
   (** the negation of a numeric literal (what syn makes of `name = -1` before another item) is
       the negative literal *)
   Lemma route_expr_neg e j l :
-    strip_groups e = ENeg j l -> default_from_expr F e = ws j (from_value F j l).
-  Proof. intros H. rewrite default_from_expr_strip, H. reflexivity. Qed.
+    strip_groups e = ENeg j l -> is_numeric l = true -> default_from_expr F e = ws j (from_value F j l).
+  Proof. intros H N. rewrite default_from_expr_strip, H. cbn [default_from_expr]. now rewrite N. Qed.
 
   Lemma route_expr_other e :
     (forall j l, strip_groups e <> ELit j l) -> (forall j l, strip_groups e <> ENeg j l) ->
